@@ -1009,7 +1009,7 @@ def _cases(ctx):
     # failure injected at every position (and every combination) for small runs
     for n in range(1, 7 if big else 5):
         yield from exhaustive_backup(n)
-    for _ in range(ctx.budget(250, 5000)):
+    for _ in range(ctx.budget(700, 5000)):
         r = ctx.rng.random()
         if r < 0.55:
             yield gen_legacy(ctx.rng)
